@@ -330,53 +330,77 @@ def run_check(pid, tier, seed, replay, t0):
             cases, dist = collect_cases(pid, spec, routing, tier, seed)
         work = os.path.join(core.CACHE, "work", pid)
         os.system("rm -rf '%s'" % work)
-        model, impl, crashed = core.run_batches([(c[0], c[1], c[2]) for c in cases], model_exe, routing, bindirs, work, pid)
-        ran = set(core.RAN)
-        # the extracted model binary against the kernel's own evaluation of the same definitions
         from . import coqterm
+        noalloc = spec.get("harness") == "noalloc"
+        # sample for the in-Coq re-evaluation of the extracted model: drawn before the run, its model lines are kept
         rs = random.Random(seed * 7919 + len(cases))
-        pool = [c for c in cases if c[0] in model]
-        sample = rs.sample(pool, min(len(pool), 150 if tier == "quick" else 600))
-        lines = ["%s %s ; %s" % (c[0], gen.cfg_head(c[1]) , " ; ".join(c[2])) for c in sample]
-        ncc, ccbad = coqterm.crosscheck(lines, model, os.path.join(work, "coq"), pid) if lines else (0, [])
+        routed = [c for c in cases if core.cfg_key(c[1]) in routing]
+        sample = rs.sample(routed, min(len(routed), 150 if tier == "quick" else 600))
+        sample_ids = set(c[0] for c in sample)
+        model_keep = {}
+        by_id = {c[0]: c for c in cases}
+        impl_keep = {} if noalloc else None      # C19 compares every raw line with the default build's
+        def consume(model, impl, spectr):
+            """one shard: compare its cases, keep only counters and failures"""
+            for cid in list(impl.keys()) + [k for k in model.keys() if k not in impl]:
+                c = by_id.get(cid)
+                if c is None:
+                    continue
+                _, cfg, steps, fam = c
+                il = impl.get(cid)
+                ml = model.get(cid)
+                if cid in sample_ids and ml is not None:
+                    model_keep[cid] = ml
+                if impl_keep is not None and il is not None:
+                    impl_keep[cid] = [l.get("_raw") for l in il if "_raw" in l]
+                seen_ids.add(cid)
+                if il is None or (len(il) == 1 and "_skipped" in il[0]):
+                    continue
+                stats["evaluations"] += 1
+                isteps = [l for l in il if l.get("_step") != "end"]
+                stats["steps"] += len(isteps)
+                stats["cfgs"][core.cfg_key(cfg)] += 1
+                for s_, l in zip(steps, isteps):
+                    stats["ops"][op_word(s_)] += 1
+                    stats["outs"][l.get("out", "?")] += 1
+                nt = nontrivial_steps(isteps)
+                if nt:
+                    stats["nontrivial"] += 1
+                    stats["distinct"].add(hashlib.sha1((core.cfg_key(cfg) + "|" + ";".join(steps)).encode()).digest()[:8])
+                sl = spectr.get(cid) or []
+                tracked = spec_vs_model(cid, sl, ml)
+                stats["spec_steps"] += tracked
+                if sl and tracked == len(steps):
+                    stats["spec_cases"] += 1
+                f = compare_case(pid, spec, cid, cfg, steps, fam, ml, il)
+                if f is None:
+                    stats["validated"] += 1
+                else:
+                    f.update(cfg=cfg, steps=steps, family=fam, cid=cid)
+                    sp = sl[f["step"]] if f["step"] < len(sl) else None
+                    if sp is not None:
+                        # the failing step lies in the fragment of the history theorems: what std::vec::Vec's list
+                        # semantics (WorldSpec.spec_step) says about it
+                        f["spec_predicts"] = " ".join("%s=%s" % (k, sp[k]) for k in ("out", "ret", "len", "snap", "ev"))
+                    if len(failures) < 200000:
+                        failures.append(f)
+                    else:
+                        stats["failures_not_kept"] = stats.get("failures_not_kept", 0) + 1
+        seen_ids = set()
+        _, _, crashed = core.run_batches([(c[0], c[1], c[2]) for c in cases], model_exe, routing, bindirs, work, pid, consume=consume)
+        ran = set(core.RAN)
+        # a case handed to the harness from which no trace came back at all is never skipped silently
+        for cid in ran - seen_ids:
+            c = by_id[cid]
+            stats["evaluations"] += 1
+            failures.append(dict(step=0, key="viol:trace-missing", expected="no monitor violation", observed="trace-missing",
+                                 cfg=c[1], steps=c[2], family=c[3], cid=cid))
+        # the extracted model binary against the kernel's own evaluation of the same definitions
+        lines = ["%s %s ; %s" % (c[0], gen.cfg_head(c[1]) , " ; ".join(c[2])) for c in sample if c[0] in model_keep]
+        ncc, ccbad = coqterm.crosscheck(lines, model_keep, os.path.join(work, "coq"), pid) if lines else (0, [])
         if ccbad:
             raise core.ToolBroken("extracted model and in-Coq evaluation disagree (extraction / driver defect): " + repr(ccbad[:2]))
         cc_count[0] = ncc
-        for cid, cfg, steps, fam in cases:
-            il = impl.get(cid)
-            ml = model.get(cid)
-            if il is None and cid in ran:
-                # handed to the harness but no trace came back: never skipped silently
-                il = [{"_step": "0", "_raw": "<no trace>", "viol": "trace-missing"}]
-            if il is None or (len(il) == 1 and "_skipped" in il[0]):
-                continue
-            stats["evaluations"] += 1
-            isteps = [l for l in il if l.get("_step") != "end"]
-            stats["steps"] += len(isteps)
-            stats["cfgs"][core.cfg_key(cfg)] += 1
-            for s, l in zip(steps, isteps):
-                stats["ops"][op_word(s)] += 1
-                stats["outs"][l.get("out", "?")] += 1
-            nt = nontrivial_steps(isteps)
-            if nt:
-                stats["nontrivial"] += 1
-                stats["distinct"].add(hashlib.sha1((core.cfg_key(cfg) + "|" + ";".join(steps)).encode()).digest()[:8])
-            sl = core.SPEC.get(cid) or []
-            tracked = spec_vs_model(cid, sl, ml)
-            stats["spec_steps"] += tracked
-            if sl and tracked == len(steps):
-                stats["spec_cases"] += 1
-            f = compare_case(pid, spec, cid, cfg, steps, fam, ml, il)
-            if f is None:
-                stats["validated"] += 1
-            else:
-                f.update(cfg=cfg, steps=steps, family=fam, cid=cid)
-                sp = sl[f["step"]] if f["step"] < len(sl) else None
-                if sp is not None:
-                    # the failing step lies in the fragment of the history theorems: what std::vec::Vec's list
-                    # semantics (WorldSpec.spec_step) says about it
-                    f["spec_predicts"] = " ".join("%s=%s" % (k, sp[k]) for k in ("out", "ret", "len", "snap", "ev"))
-                failures.append(f)
     # ---------------- the same cases on the default build (C19: behaviour identical to the default build)
     extra_cov = {}
     static_broken, static_viol = [], []
@@ -388,7 +412,7 @@ def run_check(pid, tier, seed, replay, t0):
                                            os.path.join(core.CACHE, "work", pid + "-default"), pid + "d")
             ndiff = 0
             for cid, cfg, steps, fam in common:
-                a = [l.get("_raw") for l in impl.get(cid, []) if "_raw" in l]
+                a = impl_keep.get(cid, [])
                 b = [l.get("_raw") for l in dimpl.get(cid, []) if "_raw" in l]
                 if a != b:
                     ndiff += 1
